@@ -1084,3 +1084,43 @@ def unit_variant(inj, scratch):
     return dict(functions=[fn_record(s, 'to_int', 'K', impl='Variant', how='whole real function on concrete witness literals'),
                            fn_record(s, 'to_bool', 'K', impl='Variant', how='whole real function on concrete witness literals'),
                            fn_record(s, 'from_signed_string', 'K', impl='Variant', how='whole real function on concrete witness literals')], dropped=[])
+
+
+# --------------------------------------------------------------------------------------------------
+# Display for Expr: the per-row cache key (C15: each column is evaluated on its own)
+# --------------------------------------------------------------------------------------------------
+def unit_exprkey(inj, scratch):
+    frag_begin(inj)
+    s = src('src/expr.rs', scratch)
+    impl = s.item('impl', r'Display\s+for\s+Expr')
+    it = s.item('fn', 'fmt', (impl['open'], impl['close']))
+    body = dedent(s.text[it['open']:it['end']])
+    helpers = ''
+    names = []
+    # helper functions of `impl Expr` that take a Formatter (e.g. fmt_operand) are copied verbatim too
+    for sp in s.impl_spans('Expr'):
+        for m in s.find_all(r'\bfn\s+(\w+)\s*\(', sp):
+            hit = s.item('fn', m.group(1), sp)
+            sig = s.mask[hit['sig_start']:hit['open']]
+            if 'Formatter' in sig:
+                helpers += '    ' + dedent(s.text[hit['sig_start']:hit['end']]).replace('pub fn', 'fn') + '\n'
+                names.append(m.group(1))
+    text = f'''pub mod exprkey {{
+use crate::operators::{{ArithmeticOp, LogicalOp, Op}};
+{H('frag_exprkey_prelude.rs')}
+impl Expr {{
+    // ---- verbatim: body of `impl Display for Expr {{ fn fmt }}` ----
+    pub fn fmt(&self, fmt: &mut Formatter) -> fmt::Result {body}
+    // ---- verbatim: Formatter-taking helpers of `impl Expr` ({", ".join(names) or "none"}) ----
+{helpers}
+}}
+{H('frag_exprkey.kani.rs')}
+}}
+'''
+    inj.new_file(FRAG_FILE, text)
+    r, d = frag_record('exprkey::Expr::fmt', 'src/expr.rs', 'impl Display for Expr / fn fmt (whole body, verbatim) and the Formatter-taking helpers of impl Expr',
+                       body + helpers, body + helpers,
+                       ['Expr -> shim struct with the same field names; Field / Function -> shim enums whose to_string() is the variant name; '
+                        'std::fmt::Formatter -> shim that appends to a String (write_str / write_char)'],
+                       'core::fmt (to_string through the real Display machinery does not terminate in CBMC)')
+    return dict(functions=[r], dropped=[d])
